@@ -158,3 +158,84 @@ PROPS["C16"] = {
     "assumptions": ["after an empty time-point vector only the return value, the flag and the message are judged (the statement says nothing about the stored state)",
                     "dynamic-order PPolyND with 0 coefficients and 0 rows is not judged (the statement does not cover it)"],
 }
+
+# ---------------------------------------------------------------------------------------------
+# forward-construction properties of the splines: C01 C02 C04 C18 share one binary per dimension
+ALL_DIMS = list(range(1, 11))
+for d in ALL_DIMS:
+    T("spline_fwd_d%d" % d, "spline_fwd.cpp", defs=["VDIM=%d" % d], selftest=(d in (1, 3)))
+
+FWD_QUICK_DIMS = {"C01": ALL_DIMS, "C02": [1, 2, 3, 4, 7, 10], "C04": [1, 2, 3, 5, 8], "C18": [1, 3, 4, 6]}
+
+
+def _fwd_jobs(prop, per_quick, per_thorough, extra=None):
+    def jobs(tier):
+        dims = FWD_QUICK_DIMS[prop] if tier == "quick" else ALL_DIMS
+        per = per_quick if tier == "quick" else per_thorough
+        out = []
+        for d in dims:
+            w = max(1, 16 // len(dims)) if tier == "quick" else 2
+            out += split("spline_fwd_d%d" % d, per, w)
+        if extra:
+            out += extra(tier, dims)
+        return out
+    return jobs
+
+
+_S4 = ("durations T_i = sigma*rho_i with sigma in [0.1,10] s (log-uniform, 8 steps/octave) and max/min ratio <= 1000 (cubic) / 20 (quintic) / 4 (septic) "
+       "[ratio 1, the domain edge, or log-uniform in between; shapes: all equal, one short among long, one long among short, alternating, geometric ramp, log-uniform with both extremes present]; "
+       "N: 1,2,3 over-represented, 4..12 common, 13..40 occasional; waypoints k/64*10^m (m in -3..4, optional common offset up to 1e6, occasional repeated waypoint); boundary derivatives zero / single "
+       "non-zero / generic, commensurate with the motion; start time in {0, k/8, 1e3 k, 1e6 k, 1e9}")
+
+PROPS["C01"] = {
+    "jobs": _fwd_jobs("C01", 3000, 150000),
+    "floor_quick": 25000, "floor_thorough": 1000000,
+    "rule": "order (cubic/quintic/septic) x dimension 1..10 (one binary each) x " + _S4 + "; 1/4 of the cases use exactly representable (dyadic) times; BoundaryConditions built by field assignment or the "
+            "2-/4-/6-argument constructor; route in {ctor(durations,start), ctor(time points), default+update(durations), default+update(time points), update of an object that held and answered queries for "
+            "a different problem}. non-trivial = N >= 2, or N = 1 with a non-zero boundary derivative; distinct = hash of consumed tape",
+    "tolerances": {"interpolation / boundary states": "1e-8 relative to max(data magnitude, Horner abs-sum of the segment) [+ |v| ulp(t) for evaluation at global times]",
+                   "time specifications": "bitwise for dyadic times; 1e-8 normalised otherwise when ulp(t_max)/T_min <= 1e-12", "knot times": "2(i+2) ulp(t_max)"},
+    "assumptions": ["finite inputs with |value| <= ~1e10; values near overflow are not explored", "well-scaled duration domain of DESIGN.md s4"],
+}
+
+
+def _c02_extra(tier, dims):
+    out = []
+    for d in dims:
+        reps = 2 if tier == "quick" else 40
+        out += split("spline_fwd_d%d" % d, 480 * reps, 1, prop="C02e")
+    return out
+
+
+PROPS["C02"] = {
+    "jobs": _fwd_jobs("C02", 2400, 120000, _c02_extra),
+    "floor_quick": 15000, "floor_thorough": 1000000,
+    "rule": "as C01 (" + _S4 + "), constructed through either time specification; plus [C02e] the enumerated structures order x N in 1..10 x {all equal, one short among long at every position, "
+            "one long among short at every position, alternating (2 phases), geometric ramp (2 directions)} at the edge of the well-scaled ratio, generated data per structure. Each case is decided by "
+            "(A) coefficient-wise comparison with a dense long-double solve of the optimality conditions (N <= 24), (B) scaled jumps of derivatives 1..2s-2 at interior knots, (C) the first variation along "
+            "generated admissible perturbations with non-zero derivatives at interior knots. non-trivial = N >= 2",
+    "exhaustive_note": "the C02e sub-space (480 structures per dimension) is enumerated completely on every run",
+    "tolerances": {"coefficients (normalised)": "1e-10 cubic / 1e-8 quintic / 1e-7 septic", "jumps (scaled)": "1e-10 / 1e-7 / 1e-5", "first variation (normalised)": "1e-8"},
+    "assumptions": ["'all sufficiently smooth curves' is decided through the optimality conditions (uniqueness) and a finite family of perturbations",
+                    "reference solve self-checks its residual (<= 1e-15 scaled); cases failing that are counted oracle-inconclusive"],
+}
+
+PROPS["C04"] = {
+    "jobs": _fwd_jobs("C04", 6000, 300000),
+    "floor_quick": 25000, "floor_thorough": 1000000,
+    "rule": "order x dimension x N x durations sigma*rho in [1e-3,1e3] s at any ratio up to 1e4 (same shapes as s4) x data; the object is fresh or has answered getEnergy() for another problem and was then "
+            "updated through either overload; 2/14 of the cases are closed-form anchors (one segment sampled from x = a t^s/s!; N segments sampled from a polynomial of degree < s). "
+            "non-trivial = energy above 1e-6 of the sum of absolute terms (not a straight line) / non-zero a / N>=2 for the zero-energy anchor",
+    "tolerances": {"energy": "1e-11 relative to the sum of absolute terms of the exact integral + |x^(s)(T)|^2 * 2 ulp(t_max) per segment (integration domain known to an ulp)",
+                   "sum over dimensions": "1e-8 (well-scaled ratios only)", "anchors": "1e-9 relative / 1e-12 of the natural energy scale"},
+    "assumptions": ["the exact integral is taken over the published pieces [b_i, b_i+1)"],
+}
+
+PROPS["C18"] = {
+    "jobs": _fwd_jobs("C18", 8000, 400000),
+    "floor_quick": 25000, "floor_thorough": 1000000,
+    "rule": "order x dimension (quick 1,3,4,6; thorough 1..10) x N in 2..40 x ratio in [1,100] (pinned 4,10,20,30,50,100 or log-uniform) x placement {single short among long at every position, single long among short, "
+            "alternating, geometric ramp, log-uniform mix} x min T in [0.01,1] s x data incl. non-zero boundary derivatives, start time 0. non-trivial = ratio >= 10 and N >= 3",
+    "tolerances": {"scaled residual limit": "1e-3; scale = max(|lhs|,|rhs|, 1e-6 * largest magnitude of that derivative over all knots or |data|/Tmin^m)"},
+    "assumptions": ["residuals are evaluated in long double from getCoefficients() with the input durations"],
+}
